@@ -1,4 +1,5 @@
 import Rare.Proofs.C18RT
+import Rare.Proofs.C18Offset
 /-!
 C18: the zone abbreviations Go's `parseTimeZone` reads back in full (so that a layout with `MST`
 round-trips): three upper-case letters, four or five upper-case letters ending in `T`, and the
@@ -138,11 +139,20 @@ theorem ptz_numeric (s d1 d2 : UInt8) (hs : s = 43 ∨ s = 45) (h : hh2 d1 d2 = 
   have e1 : asc "ChST" = [67, 104, 83, 84] := by decide
   have e2 : asc "MeST" = [77, 101, 83, 84] := by decide
   have e3 : asc "GMT" = [71, 77, 84] := by decide
-  have hsp : isDigitB 32 = false := by decide
-  have hv' : ¬ ((d1.toNat - 48) * 10 + (d2.toNat - 48) > 23) := by omega
+  have hval : digitsVal [d1, d2] 0 ≤ 23 := by simpa [digitsVal] using hv
+  have hds : [d1, d2].all isDigitB = true := by simp [h1, h2]
+  have hpso : ∀ tail, NoDigitHead tail → parseSignedOffset (s :: d1 :: d2 :: tail) = 3 := by
+    intro tail ht
+    have := parseSignedOffset_exact s hs [d1, d2] hds tail ht
+    simpa [hval] using this
+  have hnd : NoDigitHead rest := by
+    rcases hr with hr | ⟨r, hr⟩
+    · exact Or.inl hr
+    · exact Or.inr ⟨32, r, hr, by decide⟩
+  have hp := hpso rest hnd
   rcases hs with hs | hs <;> subst hs <;> rcases hr with hr | ⟨r, hr⟩ <;> subst hr <;>
   · unfold parseTimeZone
-    simp [e1, e2, e3, parseSignedOffset, leadingDigits, List.takeWhile, h1, h2, hsp, digitsVal, hv']
+    simp [e1, e2, e3, hp]
 
 /-- Numeric zone abbreviations of the tz database (`-03`, `+11`): a sign and an hour 00..23. -/
 theorem abbrOK_numeric (s d1 d2 : UInt8) (off : Int) (hs : s = 43 ∨ s = 45) (h : hh2 d1 d2 = true) :
